@@ -50,6 +50,17 @@ def gen_case(rng, force=None):
         table[slot] = (fs, cr, off // 0x200, sz // 0x200)
         names[slot] = name
         off += sz + rng.choice([0, 0, 0x200, 0x10000])
+    if force and force.get('ctr_slot0'):
+        # the table index is independent of where the partition lies: CTRNAND as entry 0
+        cs = next(s for s, n in names.items() if n == 'ctr')
+        if cs != 0:
+            table[0], table[cs] = table[cs], table[0]
+            n0 = names.get(0)
+            names[0] = 'ctr'
+            if n0 is None:
+                del names[cs]
+            else:
+                names[cs] = n0
     twl_slot = next((s for s, n in names.items() if n == 'twl'), None)
     tsz = table[twl_slot][3] * 0x200
     if twl_std and tsz < 0x0B100000:
